@@ -69,7 +69,7 @@ func c10Snapshot(m *metrics.Metric) []c10Snap {
 }
 
 func runC10(c c10Case) *vstat.Failure {
-	return vstat.Catch(func() *vstat.Failure { return runC10x(c) })
+	return vstat.CatchBounded(60*time.Second, func() *vstat.Failure { return runC10x(c) })
 }
 
 // c10ViaProgram builds the store by compiling a program and feeding it lines.
